@@ -6,6 +6,10 @@ from . import strs
 from .strs import SStr
 
 
+class EndlessRead(Exception):
+    """the code under test keeps reading at the end of a virtual file"""
+
+
 class VFS(object):
     def __init__(self):
         self.files = {}
@@ -52,7 +56,13 @@ class VFile(object):
     # -- reading
     def readline(self):
         L = self.fs.files[self.name]
-        if self.pos >= len(L): return ''
+        if self.pos >= len(L):
+            # a reader that keeps asking at the end of the file is looping for ever: after a
+            # generous number of end-of-file answers the run is ended with an exception
+            # (harnesses report it as a non-termination failure, replayed under a time limit)
+            self.eof_reads = getattr(self, 'eof_reads', 0) + 1
+            if self.eof_reads > 2000: raise EndlessRead('%s: end of file returned %d times' % (self.name, self.eof_reads))
+            return ''
         r = L[self.pos]
         self.pos += 1
         return r
